@@ -2404,7 +2404,7 @@ class XonshParser(Parser):
         return None
 
     def proc_cmd(self) -> Any | None:
-        # proc_cmd: sub_procs | '@(' ~ (bare_genexp | expressions) ')' | '@$(' ~ proc_cmds ')' | env_atom | help_atom | search_path | proc_macro_start ~ ((cmd_group | any_cmd))* | cmd_group | cmd_name
+        # proc_cmd: sub_procs | '@(' ~ (bare_genexp | expressions) ')' | '@$(' ~ proc_cmds ')' | env_atom | !STRING help_atom | search_path | proc_macro_start ~ ((cmd_group | any_cmd))* | cmd_group | cmd_name
         mark = self._mark()
         _lnum, _col = self._tokenizer.peek().start
         if sub_procs := self.sub_procs():
@@ -2425,7 +2425,7 @@ class XonshParser(Parser):
         if env_atom := self.env_atom():
             return env_atom
         self._reset(mark)
-        if help_atom := self.help_atom():
+        if (self.negative_lookahead(self.token, "STRING")) and (help_atom := self.help_atom()):
             return help_atom
         self._reset(mark)
         if search_path := self.search_path():
